@@ -161,7 +161,7 @@ PROPS['C01'] = {
              {'name': 'clang', 'flavour': 'clang-asan', 'driver': 'drv_c01', 'env': {'PV_SCALE': '15'}, 'shards': 6},
              {'name': 'native', 'flavour': 'asan-native', 'driver': 'drv_c01', 'env': {'PV_SCALE': '10'}, 'shards': 4},
              {'name': 'asan-dbg', 'flavour': 'asan-dbg', 'driver': 'drv_c01', 'env': {'PV_SCALE': '10'}, 'shards': 4}],
-    'require': {'concurrent.roundtrips_equal_model': 15000, 'auto.ok': 50000, 'auto.mult_lang': 100, 'ambiguous.constructed': 500, 'roundtrip.how.created': 5000, 'roundtrip.how.crypted': 5000, 'axes.cases': 3000, 'second_generation.ok': 100000},
+    'require': {'concurrent.roundtrips_equal_model': 15000, 'auto.ok': 50000, 'auto.mult_lang': 100, 'ambiguous.constructed': 500, 'roundtrip.how.created': 5000, 'roundtrip.how.crypted': 5000, 'axes.cases': 3000, 'second_generation.ok': 100000, 'roundtrip.decodes_with_failing_allocator': 5000},
 }
 MANIFEST_TEXT['C01'] = {'technique': 'runtime monitoring: encode/decode round trips observed through every seed observer vs reference model (ASan/UBSan, NDEBUG and assertion-enabled builds)',
     'text': 'Seeds (boundary-biased and random; created, loaded or encrypted) are encoded in every language for boundary and random coins under all 8 enabled-feature masks, compared with the model phrase, and decoded by both decoders; the result is compared through store bytes, birthday, all feature masks, encrypted flag and the full PBKDF2 argument list. Auto-detection must return the same seed and language or MULT_LANG exactly when the model matcher finds a second recognising language; ambiguous phrases are constructed for every overlapping language pair. Every coin, birthday and feature value is visited at least once. A clang-built stripe of the same workload guards against compiler-dependent behaviour. Every decoded seed is encoded again (same and another language, same and another coin) and that second-generation phrase must equal the model\'s and decode again. A last section repeats round trips from 8 threads at once (yields inside the dependency callbacks).',
@@ -173,7 +173,7 @@ PROPS['C02'] = {
     'runs': [{'name': 'plain', 'flavour': 'plain', 'driver': 'drv_c02', 'timeout': 1800},
              {'name': 'asan', 'flavour': 'asan', 'driver': 'drv_c02', 'env': {'PV_SCALE': '5'}, 'shards': 6},
              {'name': 'native', 'flavour': 'asan-native', 'driver': 'drv_c02', 'env': {'PV_SCALE': '5'}, 'shards': 6}],
-    'require': {'arith.correct_validates': 30720, 'arith.wrong_rejected': 400000, 'subst.detected': 300000, 'swap.detected': 2000, 'unique.exactly_one': 50, 'load.wrong_check_rejected': 50000, 'decodes.with_failing_allocator': 100000, 'phrases.with_a_respelled_word': 20000},
+    'require': {'nearwords.detected': 400, 'concurrent.decodes_ok': 50000, 'arith.correct_validates': 30720, 'arith.wrong_rejected': 400000, 'subst.detected': 300000, 'swap.detected': 2000, 'unique.exactly_one': 50, 'load.wrong_check_rejected': 50000, 'decodes.with_failing_allocator': 100000, 'phrases.with_a_respelled_word': 20000},
 }
 MANIFEST_TEXT['C02'] = {'technique': 'runtime monitoring: exhaustive field-element x position sweep and full substitution/swap neighbourhoods through the decoders vs model check value',
     'text': 'The arithmetic core is driven through polyseed_decode_explicit for every field element at every data position (all 2047 wrong check words per case in thorough, 16 in quick); for random valid phrases of every language all 16x2047 substitutions and all 120 swaps must give exactly ERR_CHECKSUM; for random data words exactly one of the 2048 check words validates and equals the model value; stored seeds with each wrong check value must not load. A quarter of the corrupted phrases are decoded while the allocator refuses its next request (CHECKSUM must still be the answer, and OK must come with a seed), and an eighth of the substituted words are typed in another permitted spelling (redundant accents, 4-6 letter abbreviation).',
@@ -185,7 +185,7 @@ PROPS['C05'] = {
     'runs': [{'name': 'plain', 'flavour': 'plain', 'driver': 'drv_c05', 'timeout': 1800},
              {'name': 'asan', 'flavour': 'asan', 'driver': 'drv_c05', 'env': {'PV_SCALE': '10'}, 'shards': 6},
              {'name': 'native', 'flavour': 'asan-native', 'driver': 'drv_c05', 'env': {'PV_SCALE': '10'}, 'shards': 4}],
-    'require': {'rows.own_coin_ok': 300, 'pairs.rejected_with_checksum': 600000, 'token_diffs.compared': 3000, 'allcoins.own_coin_ok': 20480, 'pairs.failing_allocator_ok': 1500},
+    'require': {'concurrent.rows_ok': 50000, 'rows.after_a_second_injection': 50, 'rows.own_coin_ok': 300, 'pairs.rejected_with_checksum': 600000, 'token_diffs.compared': 3000, 'allcoins.own_coin_ok': 20480, 'pairs.failing_allocator_ok': 1500},
 }
 MANIFEST_TEXT['C05'] = {'technique': 'runtime monitoring: full 2047-coin rows through encode/decode_explicit (+ auto-detect sample) with token-wise phrase diff',
     'text': 'For every language, sampled seeds and 16 coins A (boundary + random) the phrase produced by the library for A is decoded with A (must return the same seed) and with each of the 2047 other coins (must be exactly ERR_CHECKSUM); phrases for different coins must differ in the second token only. Thorough enumerates all 2048x2047 ordered pairs for two English seeds and 256 A-rows for a seed in every other language. A third section uses every coin 0..2047 as own coin once per language (the second word runs through the whole list), and wrong/right coins are also decoded with the allocator armed to fail (CHECKSUM must still win).',
@@ -208,7 +208,7 @@ PROPS['C06'] = {
              {'name': 'native', 'flavour': 'asan-native', 'driver': 'drv_c06', 'env': {'PV_SCALE': '15'}, 'shards': 4},
              # no 32-bit C library exists in this image: the library is built freestanding for i386 and x86-64 and the two programs must print the same transcript
              {'name': 'ilp32', 'kind': 'ilp32', 'flavour': 'ilp32', 'driver': 'ilp32'}],
-    'require': {'concurrent.loads_equal_specification': 50000, 'roundtrip.ok': 50000, 'ilp32.transcript_lines_compared': 5000, 'buffers.alignment_mod8.1': 10000, 'buffers.alignment_mod8.7': 10000, 'fields.16bit_rows': 2000, 'fields.8bit_rows': 30, 'load.bytes8-9.recomputed-check.OK': 1000, 'load.bytes8-9.recomputed-check.ERR_UNSUPPORTED': 1000,
+    'require': {'roundtrip.created_with_out_of_range_clock_ok': 1000, 'concurrent.loads_equal_specification': 50000, 'roundtrip.ok': 50000, 'ilp32.transcript_lines_compared': 5000, 'buffers.alignment_mod8.1': 10000, 'buffers.alignment_mod8.7': 10000, 'fields.16bit_rows': 2000, 'fields.8bit_rows': 30, 'load.bytes8-9.recomputed-check.OK': 1000, 'load.bytes8-9.recomputed-check.ERR_UNSUPPORTED': 1000,
                 'load.bytes8-9.recomputed-check.ERR_FORMAT': 1000, 'load.bytes30-31.ERR_CHECKSUM': 1000, 'load.random-with-framing+recomputed-check.OK': 100},
 }
 MANIFEST_TEXT['C06'] = {'technique': 'runtime monitoring: store/load on exact-size heap buffers vs model image codec; exhaustive field sweeps around valid images (ASan/UBSan) + ledger',
@@ -247,7 +247,7 @@ PROPS['C12'] = {
              {'name': 'uchar', 'flavour': 'uchar', 'driver': 'drv_c12', 'env': {'PV_SCALE': '15'}, 'shards': 4},
              {'name': 'native', 'flavour': 'asan-native', 'driver': 'drv_c12', 'env': {'PV_SCALE': '15'}, 'shards': 4},
              {'name': 'msan', 'flavour': 'msan', 'driver': 'drv_c12', 'env': {'PV_SCALE': '15', 'PV_NO_STATIC_MONITOR': '1'}, 'shards': 4}],
-    'require': {'concurrent.applications_equal_model': 20000, 'involution.restored': 20000, 'crypt.under_a_different_feature_mask': 10000, 'cases.all_clauses_held': 20000, 'crypt.mask_source.boundary': 5000, 'crypt.mask_source.random': 5000,
+    'require': {'default.cases_ok': 100, 'concurrent.applications_equal_model': 20000, 'involution.restored': 20000, 'crypt.under_a_different_feature_mask': 10000, 'cases.all_clauses_held': 20000, 'crypt.mask_source.boundary': 5000, 'crypt.mask_source.random': 5000,
                 'equivalent_spellings.agree(forms really differ)': 1500, 'crypt.password.empty': 500, 'crypt.password.hangul': 500, 'crypt.with_failing_allocator': 5000},
 }
 MANIFEST_TEXT['C12'] = {'technique': 'runtime monitoring: PBKDF2 monitor with scripted masks + model of the password operation, observed through every seed observer and round trips (ASan/UBSan)',
@@ -309,7 +309,7 @@ PROPS['C18'] = {
              {'name': 'uchar-wrap', 'flavour': 'uchar-wrap', 'driver': 'drv_c18', 'env': {'PV_SCALE': '10'}, 'shards': 4},
              # the shared object as shipped, inside a host program that defines (read-only / aborting) symbols with the names of all internal globals of the library
              {'name': 'shared-hostile-host', 'flavour': 'shared', 'driver': 'drv_c03', 'env': {'PV_SCALE': '5'}, 'shards': 2}],
-    'require': {'rand.creates_ok': 50000, 'rand.single_bit_patterns_ok': 152, 'rand.creates_with_repeated_random_output': 5000, 'inject.histories_ok': 1500, 'inject.struct_unmapped_afterwards': 500,
+    'require': {'rand.creates_ok': 50000, 'rand.single_bit_patterns_ok': 152, 'rand.creates_with_repeated_random_output': 5000, 'rand.creates_with_out_of_range_clock': 3000, 'inject.histories_ok': 1500, 'inject.struct_unmapped_afterwards': 500,
                 'inject.libc_fallback_observed.alloc/malloc': 300, 'inject.libc_fallback_observed.free': 300, 'inject.libc_fallback_observed.time': 300,
                 'inject.last_table.time0.alloc0.free0': 100, 'inject.last_table.time1.alloc1.free1': 100, 'inject.old_seed_freed_after_reinjection': 50},
 }
